@@ -167,11 +167,22 @@ impl Sum<FileLen> for FileLen {
 }
 
 impl FromStr for FileLen {
-    type Err = byte_unit::ByteError;
+    type Err = String;
 
     fn from_str(s: &str) -> Result<Self, Self::Err> {
-        let b = Byte::from_str(s)?;
-        Ok(FileLen(b.get_bytes() as u64))
+        // a plain number of bytes is taken as it is, the general parser goes through
+        // floating point numbers and rounds the large ones
+        if let Ok(bytes) = s.trim().parse::<u64>() {
+            return Ok(FileLen(bytes));
+        }
+        let b = Byte::from_str(s).map_err(|e| e.to_string())?;
+        match u64::try_from(b.get_bytes()) {
+            Ok(bytes) => Ok(FileLen(bytes)),
+            Err(_) => Err(format!(
+                "The value `{s}` is too large, the maximum is {} bytes.",
+                u64::MAX
+            )),
+        }
     }
 }
 
